@@ -10,6 +10,13 @@ use simcore::worker::Scenario;
 static ALLOC: simcore::quarantine::Quarantine = simcore::quarantine::Quarantine;
 
 fn main() {
+    // compio caches the io_uring opcode probe in a process-wide static: take that once, outside any
+    // run, so that no run depends on whether it was the first one in its process
+    simkernel::begin(simkernel::KConfig::default());
+    compio_runtime::Runtime::new().expect("warm-up runtime").block_on(async {
+        let _ = compio_fs::pipe::anonymous().await;
+    });
+    let _ = simkernel::end();
     let mut scenarios: Vec<Scenario> = Vec::new();
     scenarios.extend(smoke::scenarios());
     scenarios.extend(streams::scenarios());
